@@ -220,7 +220,11 @@ func checkMain(args []string) int {
 		// debugging aid: keep the units whose id contains the given text
 		var sel []Unit
 		for _, u := range units {
-			if strings.Contains(u.ID, only) {
+			if strings.HasPrefix(only, "re:") {
+				if m, _ := regexp.MatchString(only[3:], u.ID); m {
+					sel = append(sel, u)
+				}
+			} else if strings.Contains(u.ID, only) {
 				sel = append(sel, u)
 			}
 		}
